@@ -82,6 +82,7 @@ type Exec struct {
 	timers   []*ChanObj
 	blobs    map[string]blob
 	redirect map[string]*ssa.Function
+	dynRedirect map[string]*FuncVal
 	objN     int
 	endMsg   string
 	selFork  bool
